@@ -559,6 +559,38 @@ class Evaluator(object):
             return self.assign_target(tgt, ('elem', it[2][0], lid), st, node)
         return self.assign_target(tgt, ('elem', it, lid), st, node)
 
+    @staticmethod
+    def _assigned_names(body):
+        """names (re)bound by plain assignment inside a loop body, in order of first assignment"""
+        out = []
+
+        def tgt(t):
+            if isinstance(t, ast.Name):
+                if t.id not in out:
+                    out.append(t.id)
+            elif isinstance(t, (ast.Tuple, ast.List)):
+                for e in t.elts:
+                    tgt(e)
+            elif isinstance(t, ast.Starred):
+                tgt(t.value)
+        for st in body:
+            for n in ast.walk(st):
+                if isinstance(n, ast.Assign):
+                    for t in n.targets:
+                        tgt(t)
+                elif isinstance(n, (ast.AugAssign, ast.AnnAssign)):
+                    tgt(n.target)
+                elif isinstance(n, (ast.FunctionDef, ast.Lambda)):
+                    pass
+        return out
+
+    def _bind_carried(self, body, st, lid):
+        """loop-carried variables: inside the body a name that is re-assigned there may hold its
+        pre-loop value (first iteration) or the value of the previous iteration"""
+        for k, name in enumerate(self._assigned_names(body)):
+            if name in st.env:
+                st.env[name] = mkphi([st.env[name], ('carried', lid, k)])
+
     def st_For(self, node, st):
         outs = []
         for it, s0 in self.ev(node.iter, st):
@@ -566,6 +598,7 @@ class Evaluator(object):
             lid = self.loop_id(node)
             zero = s0.fork()                       # zero iterations
             s0.loops = s0.loops + (lid,)
+            self._bind_carried(node.body, s0, lid)
             conts = []
             for s1 in self.bind_loop_target(node.target, it, lid, s0, node):
                 self.emit(s1, 'loop', it, lid, node=node)
@@ -590,6 +623,7 @@ class Evaluator(object):
             if not v:
                 continue
             s.loops = s.loops + (lid,)
+            self._bind_carried(node.body, s, lid)
             for status, s2 in self.exec_block(node.body, s):
                 conts.append(s2)
         for s in conts:
